@@ -19,6 +19,7 @@ FEATURE_MIXES = [
     ("int", "bool", "assert_"),
     ("int", "fxp", "bool", "assert_"),
     ("int", "bool", "hash", "guard"),
+    ("int", "fxp", "bool", "snark"),
 ]
 
 RULES = {
